@@ -137,3 +137,14 @@ pub fn weighted_proto(r: &mut Rng) -> Proto {
         _ => Proto::V4L,
     }
 }
+
+/// Another `build()` from the same builder object (builder layers only): the token must be as good as
+/// the first one.
+pub fn rebuild(rb: &mut RunBuilder, r: &mut Rng, t: &TokenDesc) -> Option<TokenDesc> {
+    let b = t.builder?;
+    let out = rb.msg();
+    rb.push(Op::Build { b, key: t.key, out, entropy_seed: r.next(), entropy_fail: vec![], observe: false, now_ns: Ns(SENTINEL_NOW) });
+    let mut n = t.clone();
+    n.msg = out;
+    Some(n)
+}
